@@ -5,6 +5,7 @@ alphabet with shared prefixes and adjacent sort order, on a real private
 DBusConnection (harness/vconn); after every operation a method call is sent
 to every path of the alphabet (and paths beside/below it) and the child
 listing of every path is read.  Reference model: a plain dict."""
+import re
 from .. import refdbus as R
 from .. import explore
 from ..engine import Violation, worker_harness, known_fingerprints
@@ -161,13 +162,41 @@ class Session:
                 out.append(Violation('unregister-failed', 'result', '%r answered %r' % (op, r), None))
             self.reg.pop(p, None)
         if not out:
+            self.check_tree(out, repr(op))
+        if not out:
             self.probe(out, repr(op))
         seen = set()
         out = [v for v in out if not (v.resynced and (v.fingerprint in seen or seen.add(v.fingerprint)))]
         return out
 
+    def tree_dump(self):
+        r = self.h.cmd('STATE')
+        mo = re.search(r'tree=(\S+)', r)
+        return mo.group(1) if mo else ''
+
+    def check_tree(self, out, opdesc):
+        """The tree itself (hook H2): the nodes that carry a handler, with their fallback flag, are exactly the model's
+        registrations (the root's fallback flag without a handler is an implementation detail and ignored)."""
+        d = self.tree_dump()
+        self.tdump = d
+        have = {}
+        stack = []
+        for mo in re.finditer(r'\(([^:()]+):(\d)(\d)|\)', d):
+            if mo.group(0) == ')':
+                stack.pop()
+                continue
+            name = mo.group(1)
+            stack.append(name)
+            path = '/' if len(stack) == 1 else '/' + '/'.join(stack[1:])
+            if mo.group(2) == '1':
+                have[path] = mo.group(3) == '1'
+        want = {p: fb for p, (fb, _) in self.reg.items()}
+        if have != want:
+            out.append(Violation('tree-differs', 'registrations', '%s: the object tree holds handlers %r (path -> fallback), the model %r' % (opdesc, have, want), None))
+
     def key(self):
-        return repr(sorted(self.reg.items()))
+        # implementation state (the tree as the library holds it) + model registry
+        return repr(sorted(self.reg.items())) + '|' + getattr(self, 'tdump', '')
 
     def died(self):
         self.h.close()
